@@ -218,8 +218,9 @@ def known_conversion(ctx, F, cfg, conv):
 
 
 def run(ctx):
-    ctx.explanation = ("Error-discipline, who-may-call and path-literal rules on the two hand-written filtering visit_seq loops and on the known-parameter conversion (typed HIR), "
-                       "plus the constants/capacities that bound the output. The loop body's paths are enumerated; the accepted set is a closed literal condition.")
+    ctx.explanation = ("Error-discipline and who-may-call rules on the path summaries of the two hand-written filtering visit_seq functions (rules/sym.py, one symbolic iteration of the element loop: "
+                       "early return only with next_element's own error, break only on exhaustion, known entry -> push with the Result dropped, unknown -> nothing / unknown = true), the decision table of the "
+                       "known-parameter conversion over (type is public-key?) x (a probe domain of algorithms), plus the constants/capacities that bound the output.")
     ctx.rule = "obligation = (filter, clause) | conversion result site | constant, per configuration"
     ctx.trusted = ["heapless 0.7.17 Vec::push appends at the end or returns Err when full", "cbor-smol 0.5.1 SeqAccess::next_element", "derive(Deserialize) for PublicKeyCredentialParameters (C01 table)"]
     for cfg, F in ctx.facts.items():
